@@ -3,6 +3,7 @@ C10 — expanding decay modes enumerates every complete decay path exactly once.
 `expand` is `_expand_decay_modes` (DL/Model/Descriptor.lean).
 -/
 import DL.Model.Descriptor
+import DL.Lemmas.Choices
 namespace DL
 
 variable {β : Type}
@@ -123,5 +124,73 @@ def exChain : Chain Unit :=
   .mk "A" [((), [.inr (.mk "B" [((), [.inl "x"]), ((), [.inl "y"])]), .inr (.mk "C" [])]),
            ((), [.inr (.mk "B" [((), [.inl "x"]), ((), [.inl "y"])]), .inr (.mk "B" [((), [.inl "x"]), ((), [.inl "y"])])])]
 example : pathCount exChain = 6 := by decide
+
+/-! ### the enumeration theorem: decay paths as choices (definitions in DL/Lemmas/Choices.lean)
+
+`Choice.mk i subs` picks line `i` of a particle's table and, for every daughter of that line, `none`
+(stable: a plain name or a sub-chain with an empty table) or `some` choice of the daughter.
+`allChoices c` enumerates them (lines in file order, first daughter varying slowest), `IsChoice c x`
+describes them, `renderChoice fmt al top c x` spells one out. -/
+
+/-- C10 (enumeration): the descriptors returned are exactly the complete decay paths, each rendered
+    once, in file order -/
+theorem C10_enum (fmt : Fmt) (al : List (String × String)) (top : Bool) (c : Chain β) :
+    expand fmt al top c = (allChoices c).map (renderChoice fmt al top c) :=
+  expand_eq_choices fmt al top c
+
+/-- the enumeration contains exactly the well-formed choices -/
+theorem C10_choices_complete (c : Chain β) (x : Choice) : IsChoice c x ↔ x ∈ allChoices c :=
+  isChoice_iff_mem c x
+
+/-- and every one of them exactly once -/
+theorem C10_choices_nodup (c : Chain β) : (allChoices c).Nodup := allChoices_nodup c
+
+/-- link with the count theorem: there are `pathCount c` choices -/
+theorem C10_choices_length (c : Chain β) : (allChoices c).length = pathCount c := by
+  rw [← expand_length Fmt.default [] true c, expand_eq_choices, List.length_map]
+
+/-- `IsChoice` read position by position: the line index points at a line of the table and the
+    sub-choices match the daughters of that line one by one -/
+theorem C10_isChoice_iff (m : String) (modes : List (CMode β)) (i : Nat) (s : List (Option Choice)) :
+    IsChoice (.mk m modes) (.mk i s) ↔
+      ∃ b fs, modes[i]? = some (b, fs) ∧ Pointwise DaughterOK fs s := isChoice_iff m modes i s
+
+/-- what `renderChoice` spells out, equation by equation: the chosen line under the aliased name of
+    the particle; a plain name as it is, a stable sub-chain under its aliased name, a decaying
+    sub-chain as the (sub-pattern) descriptor of its own choice -/
+theorem C10_render_formula (fmt : Fmt) (al : List (String × String)) (top : Bool) :
+    (∀ (m : String) (b : β) fs ms s, renderChoice fmt al top (.mk m ((b, fs) :: ms)) (.mk 0 s) =
+        fmt.render (aliasOf al m) (" ".intercalate (ssort (renderFs fmt al fs s))) top) ∧
+    (∀ (m : String) (md : CMode β) ms i s, renderChoice fmt al top (.mk m (md :: ms)) (.mk (i + 1) s) =
+        renderChoice fmt al top (.mk m ms) (.mk i s)) ∧
+    (∀ s, renderFs fmt al ([] : List (Item β)) s = []) ∧
+    (∀ (n : String) (r : List (Item β)) o t, renderFs fmt al (.inl n :: r) (o :: t) = n :: renderFs fmt al r t) ∧
+    (∀ (c : Chain β) r t, renderFs fmt al (.inr c :: r) (none :: t) = aliasOf al c.mother :: renderFs fmt al r t) ∧
+    (∀ (c : Chain β) r x t, renderFs fmt al (.inr c :: r) (some x :: t) =
+        renderChoice fmt al false c x :: renderFs fmt al r t) := by
+  refine ⟨?_, ?_, ?_, ?_, ?_, ?_⟩
+  · intros; simp [renderChoice, renderModes, Choice.line, Choice.subs]
+  · intro m md ms i s; obtain ⟨b, fs⟩ := md
+    simp [renderChoice, renderModes, Choice.line, Choice.subs]
+  · intros; simp [renderFs]
+  · intros; simp [renderFs]
+  · intros; simp [renderFs]
+  · intros; simp [renderFs]
+
+/-- non-vacuity: the six choices of `exChain`, in order -/
+example : allChoices exChain =
+    [.mk 0 [some (.mk 0 [none]), none], .mk 0 [some (.mk 1 [none]), none],
+     .mk 1 [some (.mk 0 [none]), some (.mk 0 [none])], .mk 1 [some (.mk 0 [none]), some (.mk 1 [none])],
+     .mk 1 [some (.mk 1 [none]), some (.mk 0 [none])], .mk 1 [some (.mk 1 [none]), some (.mk 1 [none])]] := by
+  simp [exChain, allChoices, choicesModes, choicesFs, Choice.bump]
+example : (allChoices exChain).length = 6 := by rw [C10_choices_length]; decide
+example : IsChoice exChain (.mk 0 [some (.mk 1 [none]), none]) := by
+  simp [exChain, IsChoice, IsChoiceModes, IsChoiceFs, Choice.line, Choice.subs, Chain.modes]
+example : ¬ IsChoice exChain (.mk 0 [some (.mk 1 [none]), some (.mk 0 [none])]) := by
+  simp [exChain, IsChoice, IsChoiceModes, IsChoiceFs, Choice.line, Choice.subs, Chain.modes]
+/-- A -> B C with B -> y: the nested descriptor, B under the sub-pattern, C (empty table) by name -/
+example (fmt : Fmt) : renderChoice fmt [] true exChain (.mk 0 [some (.mk 1 [none]), none]) =
+    fmt.render "A" (" ".intercalate (ssort [fmt.render "B" (" ".intercalate (ssort ["y"])) false, "C"])) true := by
+  simp [exChain, renderChoice, renderModes, renderFs, Choice.line, Choice.subs, aliasOf, dget, Chain.mother]
 
 end DL
